@@ -7,6 +7,7 @@ are physically independent of one another is C05's subject — `C05_inplace_only
 `C05_fresh_ktensor_ops`; the harness checks it bit for bit on every step.)  Import-free.
 -/
 import PyttbModel.Ops.KruskalReparam
+import PyttbModel.Ops.Symmetrize
 namespace Pyttb
 namespace Ktensor
 
@@ -35,6 +36,12 @@ inductive SeqOp where
   | sub (a b : Nat)
   | tolist (k : Nat) (mode : Option Int)
   | construct (l : Nat)
+  | smul (k : Nat) (c : Int)          -- `c * K` / `K * c`
+  | neg (k : Nat)
+  | pos (k : Nat)
+  | permute (k : Nat) (order : List Nat)
+  | symmetrize (k : Nat)
+  | reconstruct (k : Nat)             -- `ktensor(K.factor_matrices, K.weights, copy=True)`
 
 /-- the slot an in-place step writes, if any -/
 def SeqOp.target : SeqOp → Option Nat
@@ -55,7 +62,7 @@ def setK (E : Env α) (k : Nat) (K : Ktensor α) : Env α := ⟨E.ks.set k K, E.
 def pushK (E : Env α) (K : Ktensor α) : Env α := ⟨E.ks ++ [K], E.vs, E.ls⟩
 
 /-- one call -/
-def runStep [Add α] [Mul α] [Div α] [Neg α] [Zero α] [One α] [LT α] [DecidableLT α]
+def runStep [Add α] [Mul α] [Div α] [Neg α] [Zero α] [One α] [NatCast α] [IntCast α] [LT α] [DecidableLT α]
     (S : Services α) (E : Env α) : SeqOp → Except Reject (Env α)
   | .normalize k wf sort nt mode => do
     let K ← getK E k
@@ -120,9 +127,33 @@ def runStep [Add α] [Mul α] [Div α] [Neg α] [Zero α] [One α] [LT α] [Deci
     | some fs => do
       let K ← construct fs none
       pure (pushK E K)
+  | .smul k c => do
+    let K ← getK E k
+    let K' ← smul (c : α) K
+    pure (pushK E K')
+  | .neg k => do
+    let K ← getK E k
+    let K' ← neg K
+    pure (pushK E K')
+  | .pos k => do
+    let K ← getK E k
+    pure (pushK E K.pos)
+  | .permute k order => do
+    let K ← getK E k
+    let K' ← permute K order
+    pure (pushK E K')
+  | .symmetrize k => do
+    let K ← getK E k
+    let K' ← Sym.ksymmetrize
+      (fun K0 => match normalize S K0.copy (some .all) false .two none with | .ok K1 => K1 | .error _ => K0) K
+    pure (pushK E K')
+  | .reconstruct k => do
+    let K ← getK E k
+    let K' ← construct K.factors (some K.weights)
+    pure (pushK E K')
 
 /-- the environments after each accepted step (stops at the first rejected call) -/
-def runSeq [Add α] [Mul α] [Div α] [Neg α] [Zero α] [One α] [LT α] [DecidableLT α]
+def runSeq [Add α] [Mul α] [Div α] [Neg α] [Zero α] [One α] [NatCast α] [IntCast α] [LT α] [DecidableLT α]
     (S : Services α) : Env α → List SeqOp → List (Except Reject (Env α))
   | _, [] => []
   | E, op :: ops =>
